@@ -17,6 +17,9 @@ ASSUME = [
     "one fault per run: configuration Deferred fails, local bind raises CannotListenError, ADD_ONION / SETCONF answered 512, every "
     "descriptor upload FAILED, control connection lost while the creation command, the descriptor wait or the final unsubscription "
     "(SETEVENTS without HS_DESC, answered in a step of its own) is outstanding",
+    "scripts reject_retry / none_relisten: listen() is called again on the same endpoint object - after Tor refused the service (everything "
+    "again with a new local listener), and after the port object of a successful listen() was stopped (the service exists: Tor is not "
+    "asked again and the listener is bound on the local port the service forwards to)",
     "fault cancel_wait: the caller cancels the Deferred listen() returned (as a timeout put on it would) during the descriptor wait: "
     "listen must fail (once the subscription has been given up) and close the local listener, never hand out a port object",
     "every configuration x fault is also run with another HS_DESC listener on the same connection (the application's own): giving up the "
@@ -36,6 +39,8 @@ def run(pid, tier, seed):
                 continue
             for noise in ("", "up", "fail", "fetchfail"):
                 traces.append(ol.replay(cfg, fault, noise))
+            if fault in ol.MODEL_FAULT:
+                continue
             if fault != "disconnect_unsub" and not cfg.startswith("str_"):       # (a connection the endpoint makes for itself has no other users)
                 # the same with somebody else listening to HS_DESC on the connection as well
                 traces.append(ol.replay(cfg, fault, "", others=True))
@@ -43,7 +48,7 @@ def run(pid, tier, seed):
     for cfg in ol.INVALID:
         traces.append(ol.replay(cfg, "invalid"))
     rep.cov["evaluations"] = len(traces)
-    rep.cov["distinct_nontrivial"] = len(set((t["cfg"], t["fault"], t["noise"], t["others"]) for t in traces))
+    rep.cov["distinct_nontrivial"] = len(set((t["cfg"], t["script"], t["noise"], t["others"]) for t in traces))
     rep.cov["exhaustive"] = True
     rep.cov["rule"] = ("every endpoint configuration x every fault (none / config / bind / reject / all uploads failed / disconnect during "
                        "create / disconnect during wait / disconnect during the unsubscription / cancelled by the caller during the wait) x another HS_DESC "
@@ -51,9 +56,9 @@ def run(pid, tier, seed):
                        "is outstanding and during the wait) plus the invalid option combinations; each is one step-by-step execution of the "
                        "real listen(); all are distinct and non-trivial")
     ok = pipeline.validate(rep, pid, "OnionListen", "OnionListenTrace", "OnionListenTrace.cfg", traces, chunk=100, nproc=4,
-                           payload=lambda t: dict(cfg=t["cfg"], fault=t["fault"], noise=t["noise"], others=t["others"]),
+                           payload=lambda t: dict(cfg=t["cfg"], fault=t["script"], noise=t["noise"], others=t["others"]),
                            describe=lambda t: "(configuration %s, fault %s, foreign descriptor events %r%s)" % (
-                               t["cfg"], t["fault"], t["noise"], ", another HS_DESC listener on the connection" if t["others"] else ""))
+                               t["cfg"], t["script"], t["noise"], ", another HS_DESC listener on the connection" if t["others"] else ""))
     rep.cov["samples"] = [dict(cfg=t["cfg"], fault=t["fault"], steps=t["steps"]) for t in ok[:1]]
     return rep.finish()
 
